@@ -176,6 +176,11 @@ let handle (s : sexp) : string = match s with
   | L [A "inflb"; dmin; coefs; s; theta; m2] ->
       let f = { lp_dmin = z_of dmin; lp_coefs = list_of q_of coefs; lp_isz = false } in
       sb (check_infnorm_lb f (list_of q_of s) (q_of theta) (q_of m2))
+  | L [A "fpclosed"; d; phis; delta; ylo; yhi; tol] ->
+      let phis = list_of q_of phis in
+      "(" ^ sb (check_fp_closed (nat_of d) phis (q_of delta) (q_of ylo) (q_of yhi) (q_of tol)) ^ " "
+      ^ sb (check_y_bracket (nat_of d) (q_of delta) (q_of ylo) (q_of yhi)) ^ " "
+      ^ so sz (fp_closed_norm (nat_of d) phis (q_of delta) (q_of ylo) (q_of yhi)) ^ ")"
   | L [A "scale"] -> sz scaleZ
   | _ -> failwith "unknown command"
 
